@@ -541,10 +541,21 @@ def r17_5(ctx, run, rule='R17.5'):
             paths.extend(ex.explore(start=s, stop=set(loops)))
         pushes = 0
         bad = None
+        # the offsets vector: a `&mut Vec<u64>` parameter (pushes into locally built vectors are not offset reports)
+        off_params = {i for i in range(1, b.argc + 1) if 'Vec<u64>' in str(b.local_ty(i).get('s', ''))}
+        def is_offsets_push(e):
+            if not (called(e[1], 'Vec::push') and e[2]) or alias_of(e[2][0], roots):
+                return False
+            if not off_params:
+                return True
+            r_ = deref_all(e[2][0])
+            while r_[0] in ('ref', 'deref', 'loc'):
+                r_ = r_[1] if r_[0] != 'loc' else r_[2] if len(r_) > 2 else r_[1]
+            return r_[0] in ('init', 'hav') and r_[1] in off_params
         for q in paths:
             evs = [e for e in q.events if e[0] == 'call']
             for i, e in enumerate(evs):
-                if called(e[1], 'Vec::push') and e[2] and not alias_of(e[2][0], roots):
+                if is_offsets_push(e):
                     # pushing into `offsets`
                     val = strip_casts(e[2][1])
                     pushes += 1
@@ -564,7 +575,7 @@ def r17_5(ctx, run, rule='R17.5'):
                 continue
             evs = [e for e in q.events if e[0] == 'call']
             last_app = max([i for i, x in enumerate(evs) if x[2] and alias_of(x[2][0], roots) is not None and called(x[1], *APPEND)], default=-1)
-            last_push = max([i for i, x in enumerate(evs) if called(x[1], 'Vec::push') and x[2] and not alias_of(x[2][0], roots)], default=-1)
+            last_push = max([i for i, x in enumerate(evs) if is_offsets_push(x)], default=-1)
             iteration = q.end[0] in ('backedge', 'stop') and q.blocks and q.end[1] == q.blocks[0] and q.blocks[0] in loops
             if last_app >= 0 and last_push < last_app and (q.end[0] == 'return' or iteration) and not is_err_return(q):
                 # build_scalar_array appends inside the loop and pushes once after it: accept when a later region pushes
